@@ -12,6 +12,9 @@ use std::collections::HashMap;
 pub struct BSpec {
     pub keys: Vec<u64>,
     pub rng_seed: u64,
+    /// cuckoo only: keys deleted from the operand after the inserts (leaves holes in its buckets)
+    #[serde(default)]
+    pub deletes: Vec<u64>,
 }
 
 #[derive(Clone, Debug, Serialize, Deserialize)]
@@ -369,6 +372,18 @@ impl<'a> Exec<'a> {
                 }
             }
         }
+        for &k in &spec.deletes {
+            if let Some(&i) = self.idx.get(&k) {
+                // only keys the operand itself holds, so that key-level liveness stays meaningful
+                if mb.live[i] > 0 && b.delete(k) == Some(true) {
+                    let c = self.cls[i];
+                    mb.count[c] = mb.count[c].saturating_sub(1);
+                    mb.total = mb.total.saturating_sub(1);
+                    mb.live[i] -= 1;
+                    self.stats.probe("operand_with_holes");
+                }
+            }
+        }
         (b, mb)
     }
 
@@ -551,7 +566,7 @@ impl<'a> Exec<'a> {
                 over[i] = carry;
             }
         }
-        if m.total == size {
+        if m.total >= size {
             self.stats.probe(if sender { "sender_table_full" } else { "table_full" });
             return;
         }
@@ -559,7 +574,11 @@ impl<'a> Exec<'a> {
             self.stats.probe(if sender { "sender_cluster_wrap" } else { "cluster_wrap" });
         }
         let used = |i: usize| per[i] > 0 || over[(i + size - 1) % size] > 0;
-        let start = (0..size).find(|&i| !used(i)).unwrap();
+        // (a library that accepts more classes than slots would leave no free slot: nothing to probe then)
+        let start = match (0..size).find(|&i| !used(i)) {
+            Some(x) => x,
+            None => return,
+        };
         let mut runs = 0;
         for d in 1..=size {
             let i = (start + d) % size;
@@ -934,7 +953,15 @@ impl Scenario for S1 {
         };
         // C12 staircase: a fixed B tried against an A that fills up one insert at a time
         let stair = prop == "C12" && g.chance(1, 2);
-        let stair_b = BSpec { keys: (0..g.range(1, 8)).map(|_| pick_key(&mut g)).collect(), rng_seed: g.u64() };
+        let gen_deletes = |g: &mut Sm, keys: &[u64]| -> Vec<u64> {
+            if is_cuckoo && !keys.is_empty() && g.chance(2, 5) {
+                (0..g.range(1, 1 + keys.len() as u64 / 2)).map(|_| keys[g.usize((keys.len() + 1) / 2)]).collect()
+            } else {
+                vec![]
+            }
+        };
+        let stair_keys: Vec<u64> = (0..g.range(1, 8)).map(|_| pick_key(&mut g)).collect();
+        let stair_b = BSpec { deletes: gen_deletes(&mut g, &stair_keys), keys: stair_keys, rng_seed: g.u64() };
         while ops.len() < nops {
             let x = g.below(100);
             if stair && x < 45 {
@@ -944,10 +971,12 @@ impl Scenario for S1 {
                 ops.push(FOp::Delete(pick_key(&mut g)));
             } else if x < p_delete + p_union {
                 let nk = g.range(0, 10);
-                ops.push(FOp::Union(BSpec { keys: (0..nk).map(|_| pick_key(&mut g)).collect(), rng_seed: g.u64() }));
+                let keys: Vec<u64> = (0..nk).map(|_| pick_key(&mut g)).collect();
+                ops.push(FOp::Union(BSpec { deletes: gen_deletes(&mut g, &keys), keys, rng_seed: g.u64() }));
             } else if x < p_delete + p_union + p_try {
                 let nk = g.range(1, 10);
-                ops.push(FOp::TryUnion(BSpec { keys: (0..nk).map(|_| pick_key(&mut g)).collect(), rng_seed: g.u64() }));
+                let keys: Vec<u64> = (0..nk).map(|_| pick_key(&mut g)).collect();
+                ops.push(FOp::TryUnion(BSpec { deletes: gen_deletes(&mut g, &keys), keys, rng_seed: g.u64() }));
             } else if x < p_delete + p_union + p_try + p_enum && enum_budget > 0 {
                 enum_budget -= 1;
                 ops.push(FOp::EnumInserts { salts: g.range(1, 3) as u8 });
@@ -995,9 +1024,19 @@ impl Scenario for S1 {
             if let FOp::Union(s) | FOp::TryUnion(s) = op {
                 for keys in shrink_vec(&s.keys) {
                     let mut c = case.clone();
-                    let ns = BSpec { keys, rng_seed: s.rng_seed };
+                    let ns = BSpec { keys, rng_seed: s.rng_seed, deletes: s.deletes.clone() };
                     c.ops[i] = if matches!(op, FOp::Union(_)) { FOp::Union(ns) } else { FOp::TryUnion(ns) };
                     out.push(c);
+                }
+            }
+            if let FOp::Union(sp) | FOp::TryUnion(sp) = op {
+                if !sp.deletes.is_empty() {
+                    for d in shrink_vec(&sp.deletes) {
+                        let mut c = case.clone();
+                        let ns = BSpec { keys: sp.keys.clone(), rng_seed: sp.rng_seed, deletes: d };
+                        c.ops[i] = if matches!(op, FOp::Union(_)) { FOp::Union(ns) } else { FOp::TryUnion(ns) };
+                        out.push(c);
+                    }
                 }
             }
             if let FOp::EnumInserts { salts } = op {
